@@ -11,7 +11,7 @@
 From Coq Require Import List Arith NArith ZArith Bool Lia ZifyBool ZifyN ZifyNat String.
 Import ListNotations.
 Require Import PyStr Regex Regexes NumLit Num NumSpec HeaderLine Tables SectionParse DataRead Read TextWrap Writer.
-Require Import HeaderLineSpec HeaderLineFragments HeaderLineProofs NumProofs ItemsBindProofs OrderTableProofs.
+Require Import HeaderLineSpec HeaderLineFragments HeaderLineProofs BlankMnemonicProofs NumProofs ItemsBindProofs OrderTableProofs.
 Open Scope string_scope.
 Open Scope list_scope.
 Open Scope N_scope.
@@ -711,4 +711,176 @@ Proof.
   rewrite app_assoc. apply dd_app_false; [|exact T4|left].
   - apply nodot_dd. rewrite in_str_app, Hmd, Hp1d. reflexivity.
   - apply nodot_ew. rewrite in_str_app, Hmd, Hp1d. reflexivity.
+Qed.
+
+(* ====================================================================================== *)
+(* 9. blank mnemonics, on lines with no further period                                     *)
+(* ====================================================================================== *)
+(* the item has an empty mnemonic; unit, value and description are conformant as before and
+   contain no period (the leading period of the stripped line is then the only one) *)
+Definition conf_blank (fstr : list N -> list N) (k : skind) (o : item_order) (it : hitem) : bool :=
+  let rhs := rhs_text fstr o it in
+  let tail := tail_text fstr o it in
+  is_nil (i_orig it) && conf_unit (i_unit it) && conf_text rhs && conf_text tail &&
+  negb (in_str 46 (i_unit it)) && negb (in_str 46 rhs) && negb (in_str 46 tail) &&
+  match k with
+  | KParameter => clock_colons rhs && (negb (is_nil tail) || negb (in_str 58 (i_unit it)))
+  | _ => negb (in_str 58 tail)
+  end.
+
+Lemma strip_blank_line (p1 u p2 v d : list N) :
+  blanks p1 = true -> stripped d = true ->
+  strip (layout [] [] p1 u p2 v [32] [32] d []) = layout_blank u p2 v [32] (pad4 d) d [].
+Proof.
+  intros Hp1 Hd. unfold layout, layout_blank. cbn [app]. rewrite !app_nil_r.
+  destruct d as [|c d].
+  - cbn [pad4 app].
+    replace (p1 ++ 46 :: u ++ p2 ++ v ++ [32; 58; 32])
+      with (p1 ++ ([46] ++ (u ++ p2 ++ v ++ [32]) ++ [58]) ++ [32]).
+    + rewrite strip_pad; [|exact Hp1|reflexivity|].
+      * cbn [app]. rewrite <- !app_assoc. reflexivity.
+      * apply stripped_sandwich; [discriminate|discriminate|reflexivity|reflexivity].
+    + cbn [app]. rewrite <- !app_assoc. cbn [app]. reflexivity.
+  - cbn [pad4 app].
+    replace (p1 ++ 46 :: u ++ p2 ++ v ++ 32 :: 58 :: 32 :: c :: d)
+      with (p1 ++ ([46] ++ (u ++ p2 ++ v ++ [32; 58; 32]) ++ c :: d) ++ []).
+    + rewrite strip_pad; [|exact Hp1|reflexivity|].
+      * cbn [app]. rewrite <- !app_assoc. reflexivity.
+      * apply stripped_sandwich; [discriminate|discriminate|reflexivity|exact Hd].
+    + rewrite app_nil_r. cbn [app]. rewrite <- !app_assoc. reflexivity.
+Qed.
+
+Section BlankLine.
+  Variable fstr : list N -> list N.
+  Variables (k : skind) (o : item_order) (lw mw : nat) (it : hitem).
+  Hypothesis Hconf : conf_blank fstr k o it = true.
+  Hypothesis Hcov : covers fstr o lw mw it.
+
+  Let rhs := rhs_text fstr o it.
+  Let tail := tail_text fstr o it.
+
+  Lemma bl_fields :
+    i_orig it = [] /\ conf_unit (i_unit it) = true /\ conf_text rhs = true /\ conf_text tail = true /\
+    in_str 46 (i_unit it) = false /\ in_str 46 rhs = false /\ in_str 46 tail = false /\
+    match k with
+    | KParameter => clock_colons rhs && (negb (is_nil tail) || negb (in_str 58 (i_unit it)))
+    | _ => negb (in_str 58 tail)
+    end = true.
+  Proof.
+    unfold conf_blank in Hconf. fold rhs tail in Hconf.
+    apply andb_true_iff in Hconf as [H H8]. apply andb_true_iff in H as [H H7].
+    apply andb_true_iff in H as [H H6]. apply andb_true_iff in H as [H H5].
+    apply andb_true_iff in H as [H H4]. apply andb_true_iff in H as [H H3].
+    apply andb_true_iff in H as [H1 H2].
+    apply negb_true_iff in H5, H6, H7.
+    destruct (i_orig it); [|discriminate H1]. repeat split; assumption.
+  Qed.
+
+  Lemma strip_format_blank :
+    strip (format_item fstr o lw mw it) =
+    layout_blank (i_unit it) (pad2 fstr o mw it) rhs [32] (pad4 tail) tail [].
+  Proof.
+    destruct bl_fields as (Hm & _ & _ & Ht & _). rewrite format_is_layout. fold rhs tail.
+    pose proof (blanks_pad1 lw it) as Hp1. rewrite Hm in *.
+    unfold conf_text in Ht. apply andb_true_iff in Ht as [Ht _].
+    apply strip_blank_line; assumption.
+  Qed.
+
+  Theorem blank_stripped_line_roundtrip :
+    read_header_line (strip (format_item fstr o lw mw it)) (is_curves_of k) (is_param_of k)
+    = Some (mkhl [] (i_unit it) rhs tail).
+  Proof.
+    destruct bl_fields as (Hm & Hu & Hr & Ht & Hud & Hrd & Htd & Hk).
+    rewrite strip_format_blank. apply blank_name_parse; try assumption.
+    - rewrite blanks_pad2, blanks_pad4. reflexivity.
+    - unfold value_set_off. pose proof (pad2_nonempty fstr o lw mw it Hcov) as H.
+      destruct (pad2 fstr o mw it); [congruence|]. apply orb_true_r.
+    - unfold sect_ok. apply andb_true_iff. split.
+      + destruct k; cbn [is_curves_of negb orb]; try reflexivity.
+        apply no_double_dot_plain. unfold no_double_dot. apply negb_true_iff.
+        change (contains [46; 46]) with dd. unfold layout_blank. cbn [app].
+        pose proof (blanks_nodot _ (blanks_pad2 fstr o mw it)) as Hp2d.
+        assert (HR : in_str 46 (i_unit it ++ pad2 fstr o mw it ++ rhs ++ 32 :: 58 :: pad4 tail ++ tail ++ []) = false).
+        { rewrite !in_str_app, !in_str_cons, !in_str_app, Hud, Hp2d, Hrd, Htd.
+          rewrite (blanks_nodot _ (blanks_pad4 tail)). reflexivity. }
+        rewrite dd_cons, (nodot_sw _ HR), (nodot_dd _ HR). reflexivity.
+      + destruct k; cbn [is_param_of]; try exact Hk.
+        apply andb_true_iff in Hk as [Hcc Hor]. rewrite Hcc. cbn [andb is_nil negb].
+        destruct tail as [|c t]; cbn [pad4 is_nil negb andb orb] in *; [|reflexivity].
+        rewrite Hor. reflexivity.
+  Qed.
+End BlankLine.
+
+(* a line that parse_body reads as the item x *)
+Definition line_reads (v : las_version) (k : skind) (c : mcase) (cc : list N) (raw : list N) (x : hitem) : Prop :=
+  exists c0 L, strip raw = c0 :: L /\ in_str c0 cc = false /\ (c0 =? 126) = false /\
+               parse_line v k c (c0 :: L) = Some x.
+
+Theorem body_roundtrip_gen fstr v k c ie cc tr (line : hitem -> list N) : forall items acc,
+  (forall it, In it items -> line_reads v k c cc (line it) (expected_item fstr k c it)) ->
+  exists acc',
+    parse_body v k c ie cc tr (map line items) acc = POk acc' /\
+    map meta acc' = map meta acc ++ map (fun it => meta (expected_item fstr k c it)) items.
+Proof.
+  induction items as [|it items IH]; intros acc Hall.
+  - exists acc. split; [reflexivity|]. cbn [map]. rewrite app_nil_r. reflexivity.
+  - destruct (Hall it (or_introl eq_refl)) as (c0 & L & Hs & H1 & H2 & Hp). cbn [map].
+    rewrite (parse_body_step v k c ie cc tr _ _ acc c0 L _ Hs H1 H2 Hp).
+    destruct (IH (sect_append tr acc (expected_item fstr k c it))
+                 (fun it' Hin => Hall it' (or_intror Hin))) as (acc' & Hpb & Hmeta).
+    exists acc'. split; [exact Hpb|]. rewrite Hmeta, sect_append_meta, <- app_assoc. reflexivity.
+Qed.
+
+Lemma line_reads_conf fstr v k c cc o lw mw it :
+  conf_item fstr k o lw mw it = true -> covers fstr o lw mw it ->
+  o = reader_order v k (apply_case c (i_orig it)) -> starts_ok cc it = true ->
+  line_reads v k c cc (format_item fstr o lw mw it) (expected_item fstr k c it).
+Proof.
+  intros Hconf Hcov Hord Hst.
+  destruct (strip_format_head fstr k o lw mw it Hconf) as (c0 & L & mn' & Hmn & Hs).
+  unfold starts_ok in Hst. rewrite Hmn in Hst. apply andb_true_iff in Hst as [H1 H2].
+  apply negb_true_iff in H1. apply negb_true_iff in H2.
+  pose proof (stripped_item_roundtrip fstr v k c o lw mw it Hconf Hcov Hord) as Hp.
+  rewrite Hs in Hp. exists c0, L. repeat split; assumption.
+Qed.
+
+Lemma line_reads_blank fstr v k c cc o lw mw it :
+  conf_blank fstr k o it = true -> covers fstr o lw mw it ->
+  o = reader_order v k (apply_case c (i_orig it)) -> in_str 46 cc = false ->
+  line_reads v k c cc (format_item fstr o lw mw it) (expected_item fstr k c it).
+Proof.
+  intros Hconf Hcov Hord Hcc.
+  pose proof (blank_stripped_line_roundtrip fstr k o lw mw it Hconf Hcov) as Hr.
+  pose proof (strip_format_blank fstr k o lw mw it Hconf) as Hs.
+  destruct (bl_fields fstr k o it Hconf) as (Hm & _).
+  unfold layout_blank in Hs. cbn [app] in Hs.
+  eexists 46, _. split; [exact Hs|]. split; [exact Hcc|]. split; [reflexivity|].
+  rewrite <- Hs. apply (parse_line_of_hline fstr v k c o it Hord). rewrite Hm. exact Hr.
+Qed.
+
+(* C03.5 with blank mnemonics: every item is conformant, or has a blank mnemonic and no period *)
+Theorem section_roundtrip_blanks fstr v k c ie cc tr items : is_std k = true ->
+  (forall it, In it items ->
+     (conf_item fstr k (sec_ord v (sect_table_name k) it) (sec_lw items)
+                (sec_mw fstr (sec_ord v (sect_table_name k)) items) it = true /\
+      starts_ok cc it = true)
+     \/ (conf_blank fstr k (sec_ord v (sect_table_name k) it) it = true /\ in_str 46 cc = false)) ->
+  exists lines items',
+    section_lines fstr v (sect_table_name k) items = Some lines /\
+    parse_body v k c ie cc tr lines [] = POk items' /\
+    map meta items' = map (fun it => meta (expected_item fstr k c it)) items.
+Proof.
+  intros Hk Hall. rewrite section_lines_eq. destruct (lookup_complete v k Hk) as [e He]. rewrite He.
+  destruct (body_roundtrip_gen fstr v k c ie cc tr
+              (fun it => format_item fstr (sec_ord v (sect_table_name k) it) (sec_lw items)
+                           (sec_mw fstr (sec_ord v (sect_table_name k)) items) it) items [])
+    as (acc' & Hpb & Hmeta).
+  - intros it Hin.
+    assert (Hord : sec_ord v (sect_table_name k) it = reader_order v k (apply_case c (i_orig it))).
+    { unfold sec_ord. rewrite (writer_order_is_reader_order v k c (i_orig it) Hk). reflexivity. }
+    pose proof (widths_cover fstr (sec_ord v (sect_table_name k)) items it Hin) as Hcov.
+    destruct (Hall it Hin) as [[Hc Hs]|[Hb Hcc]].
+    + apply line_reads_conf; assumption.
+    + apply line_reads_blank; assumption.
+  - eexists _, acc'. split; [reflexivity|]. split; [exact Hpb|]. exact Hmeta.
 Qed.
